@@ -7,11 +7,14 @@ from penman.surface import Alignment, RoleAlignment
 from pmon.ref.model import RefModel
 from pmon.gen.trees import usable_bases, DEFAULT
 
-BASES = [':ARG0', ':ARG1', ':ARG2', ':mod', ':domain', ':op1', ':op2', ':op10', ':polarity',
+BASES = [':out-of-office', ':type-of-offer', ':part-of-speech',      # '-of' inside a word is not an inversion
+         ':ARG0', ':ARG1', ':ARG2', ':mod', ':domain', ':op1', ':op2', ':op10', ':polarity',
          ':quant', ':', ':x-y', ':consist-of', ':prep-on-behalf-of', ':time', ':poss', ':r0',
          ':consist', ':x', ':u']
 CONSTS = ['-', 'foo', '"a b"', '"(p)"', '"a~b"', 7, 0, 0.5, -1, -1.5, 1e-7, None, '00',
-          '"\\"q\\""', 'imperative', '+', 0.0, '"#x"', '\u03b5', 'c,d', 100, '"~1"']
+          '"\\"q\\""', 'imperative', '+', 0.0, '"#x"', '\u03b5', 'c,d', 100, '"~1"',
+          # symbols that begin like something else in another notation (a Lisp remark, a shell option ...)
+          ';', ';x', 'x;y', '--v', '%c', '!', '@x', '$1', '&', '*', '=', '<a>', '?', '[k]', '\\n', '`t`', '{}', '|']
 CONCEPTS = ['alpha', 'beta', 'i', 'a', 'b', None, '"str"', 'bark-01', 7, 0, 0.0, -2, '-']
 VARPOOL = ['a', 'b', 'c', 'd', 'e', 'i', 'x1', '_', '_2', 'i2', 'v\u00e9']
 
@@ -125,7 +128,11 @@ def rand_graph(rng, rm=None, n=None, p_inv=0.25, consts=None, concepts=None, bas
         add(s, r, t, True)
     na = rng.randrange(0, n + 2) if extra_attrs is None else extra_attrs
     for _ in range(na):
-        add(rng.choice(vs), role(), rng.choice(consts), False)
+        const = rng.choice(consts)
+        if rng.random() < 0.08:
+            from pmon.gen import trees as _T
+            const = _T._wide_symbol(rng, vset)          # any grammar-valid symbol over all of Unicode
+        add(rng.choice(vs), role(), const, False)
     return vs, triples
 
 
